@@ -59,7 +59,10 @@ fn convert_dvars(mps: &Mps) -> (Vec<v1::DecisionVariable>, HashMap<ColumnName, u
     // Handling all edge cases would be pretty complex and potentially bad for
     // performance. For simplicity, we only apply ID recovery when ALL variables
     // match the naming pattern.
-    if vars.iter().any(|name| !name.starts_with(VAR_PREFIX)) {
+    if vars
+        .iter()
+        .any(|name| parse_id_tag(VAR_PREFIX, name).is_none())
+    {
         // general case -- assign ids by order
         for (i, var_name) in vars.iter().enumerate() {
             let kind = get_dvar_kind(var_name, integer, binary, real);
@@ -148,7 +151,10 @@ fn convert_constraints(mps: &Mps, name_id_map: &HashMap<ColumnName, u64>) -> Vec
     let mut constrs = Vec::with_capacity(a.len());
 
     // as with decision variables, we're trying to recover IDs whenever all constraints match the naming scheme
-    if a.keys().any(|name| !name.starts_with(CONSTR_PREFIX)) {
+    if a
+        .keys()
+        .any(|name| parse_id_tag(CONSTR_PREFIX, name).is_none())
+    {
         // general case -- assign ids by order
         for (i, (row_name, row)) in a.iter().enumerate() {
             let b = b.get(row_name).copied().unwrap_or(0.0);
